@@ -231,7 +231,6 @@ def popN : Nat → List Prog → Option (List Prog)
     match simpleLen p with
     | some l => if l ≤ n + 1 then popN (n + 1 - l) stk else none
     | none => none
-termination_by _ stk => stk.length
 
 mutual
 def normP : Prog → Option Prog
